@@ -29,7 +29,13 @@ fn sel() -> validator::LeaderSelection {
 }
 
 fn mk_world(wseed: u64, weights: &[u64], first: u64) -> World {
-    World::new(wseed, weights, &vec![true; weights.len()], sel(), first)
+    // which validators are eligible as leaders is irrelevant for certificates (a vote counts with its weight whoever
+    // may lead): odd world seeds use a committee in which only some validators are eligible
+    let mut leaders: Vec<bool> = (0..weights.len()).map(|i| wseed % 2 == 0 || (wseed >> (1 + i % 16)) & 1 == 1).collect();
+    if !leaders.iter().any(|l| *l) {
+        leaders[(wseed as usize / 2) % weights.len()] = true;
+    }
+    World::new(wseed, weights, &leaders, sel(), first)
 }
 
 impl Prop for C04 {
